@@ -167,6 +167,76 @@ def _ens_rt(cell, legacy, **kw):
         and _same_arr(r.weights, e.weights)
 
 
+def pick(sel, n):
+    for i in range(n):
+        if sel == i:
+            return i
+    return 0
+
+
+def h_reread(kind: int, legacy: bool, mut: int, fresh: bool) -> bool:
+    """
+    what is read back does not depend on what was done to an object read earlier: store, read, modify the object that came back (name, charge,
+    coordinates, atom label, attribute, an atom deleted), read the same key again (through the same or a fresh library handle): the second object
+    equals what was stored.  Runs outside the tracer once the selectors are concrete (a C-level cache on the read path is invisible to CrossHair).
+    pre: 0 <= kind <= 1 and 0 <= mut <= 5
+    post: _
+    """
+    from crosshair.tracers import NoTracing
+    import msgpack as real_msgpack
+    kind, mut = pick(kind, 2), pick(mut, 6)
+    saved_codec = L.msgpack
+    L.msgpack = real_msgpack                  # concrete values outside the tracer: the real codec (the handle model keeps references, real msgpack copies)
+    try:
+        return _reread(kind, legacy, mut, fresh)
+    finally:
+        L.msgpack = saved_codec
+
+
+def _reread(kind, legacy, mut, fresh):
+    from crosshair.tracers import NoTracing
+    with NoTracing():
+        atoms = _atoms(2, 3, 13, "L", 2, 10, 41, -1, 1, 7)
+        if kind == 0:
+            libcls = MoleculeLibrary
+            m = Molecule(atoms, name="nm", charge=-2, mult=3, coords=COORDS[:3], atomic_charges=CHARGES[:3], attrib={"val": 9})
+        else:
+            libcls = ConformerLibrary
+            m = ConformerEnsemble(atoms, n_conformers=2, name="nm", charge=-2, mult=3, coords=np.array([COORDS[:3], COORDS[:3] * 2.0]), weights=np.array([0.75, 0.25]),
+                                  atomic_charges=np.array([CHARGES[:3], CHARGES[:3] - 0.5]), attrib={"val": 9})
+        _bonds(m, 2, 0, "bl", 2, 10, 1, 5)
+        p = new_path()
+        HandleCodec.reset()
+        if legacy:
+            _make_v1_file(p, libcls)
+        lib = libcls(p, readonly=False)
+        with lib.writing():
+            lib["k"] = m
+            lib["k2"] = m                              # a second key holding an identical record
+        rd = libcls(p, readonly=True)
+        with rd.reading():
+            r1 = rd["k"]
+        if mut == 0:
+            r1.name = "changed"
+        elif mut == 1:
+            r1.charge = 5
+        elif mut == 2:
+            r1.coords[...] = -1.0
+        elif mut == 3:
+            r1.atoms[0].label = "zz"
+        elif mut == 4:
+            r1.attrib["val"] = "other"
+        else:
+            r1.del_atom(r1.atoms[2])
+        rd2 = libcls(p, readonly=True) if fresh else rd
+        for key in ("k", "k2"):
+            with rd2.reading():
+                r2 = rd2[key]
+            if r2 is r1 or not _same_struct(r2, m, legacy) or not _same_arr(r2.coords, m.coords) or not _same_arr(r2.atomic_charges, m.atomic_charges):
+                return False
+    return True
+
+
 def _rt(kind, cell, legacy, **kw):
     return _mol_rt(cell, legacy, **kw) if kind == 0 else _ens_rt(cell, legacy, **kw)
 
@@ -258,5 +328,6 @@ def run(rep, tier):
                 specs.append({"fn": "h_bond_fields", "timeout": 400, "split": kind * 100 + c_})
     if not q:
         specs += [{"fn": "h_all_fields", "timeout": 2400, "split": s_} for s_ in (2, 11, 106, 111)]
+    specs.append({"fn": "h_reread", "timeout": 400})
     xh.run_obligations(rep, "harness.C01", specs)
     xh.known_witness(rep, "harness.C01")
